@@ -78,7 +78,7 @@ theorem impl_trig (eps : ℝ) (S : M3 ℝ) (hb : ¬ DiagBranch eps S) :
         (Gen.ev3_lam2 Real.cos (qOf S) (pOf S) (phiOf S) Real.pi) := by
   unfold DiagBranch p1Of at hb
   unfold eigenValues3dImpl
-  simp only [if_neg hb]
+  simp only [if_neg hb, det3m_eq]
   rfl
 
 theorem impl_diag (sqrt acos cos : ℝ → ℝ) (pi eps : ℝ) (S : M3 ℝ) (hb : DiagBranch eps S) :
